@@ -618,6 +618,15 @@ def run_check(plugin, tier=None, replay=None):
             })
             violations.append((f"VIOLATION property={prop} replay={path} no-failing-input-found", path))
 
+    # ---- property-specific extra runs (e.g. the multi-thread stress run of the pool): testing that
+    # supports the tie between model and code in a dimension the model cannot exhibit
+    extra_info = None
+    if hasattr(plugin, "extra") and not replay:
+        extra_info, extra_viol = plugin.extra(tier, seed)
+        for payload in extra_viol[:2]:
+            path = write_replay(prop, payload)
+            violations.append((f"VIOLATION property={prop} replay={path}", path))
+
     if (pinfo["failed"] or not model_ok) and not violations:
         path = write_replay(prop, {
             "property": prop,
@@ -653,6 +662,8 @@ def run_check(plugin, tier=None, replay=None):
         "audited_files": pinfo.get("audited_files"), "coqchk": pinfo.get("coqchk"),
     }
     coverage.update(gen_meta.get("extra", {}))
+    if extra_info is not None:
+        coverage["extra_runs"] = extra_info
     wall = time.time() - t0
     write_evidence(prop, tier, seed, coverage, plugin.assumptions, wall, len(violations))
     for line in known_lines:
